@@ -182,7 +182,7 @@ fn handle(w: &str, c: char) -> Option<usize> {
 pub fn handle_positions(verb: &str) -> &'static [usize] {
     match verb {
         "remove" | "setref" | "move" | "copy" | "#twin" => &[1, 2],
-        "reset" | "newmodel" | "mkfile" | "sortm" | "lookup" | "refs" | "checkrefs" | "dump" | "rmfile" | "#dup" | "compat" | "setver" | "load" | "ser" => &[],
+        "reset" | "newmodel" | "mkfile" | "sortm" | "lookup" | "refs" | "checkrefs" | "dump" | "rmfile" | "#dup" | "compat" | "setver" | "load" | "ser" | "dfsf" => &[],
         _ => &[1],
     }
 }
@@ -487,6 +487,23 @@ impl World {
                 Some(p) => format!("ok {p}"),
                 None => "none".to_string(),
             },
+            "dfs" if n == 3 => {
+                let e = self.h_elem(w[1])?;
+                let d: usize = w[2].parse().ok()?;
+                let l: Vec<String> = e.elements_dfs_with_max_depth(d).map(|(dp, x)| format!("{dp}:{}", self.eid(&x))).collect();
+                if l.is_empty() { "ok -".to_string() } else { format!("ok {}", l.join(",")) }
+            }
+            "dfsf" if n == 3 => {
+                let f = self.h_file(w[1])?;
+                let d: usize = w[2].parse().ok()?;
+                let l: Vec<String> = f.elements_dfs_with_max_depth(d).map(|(dp, x)| format!("{dp}:{}", self.eid(&x))).collect();
+                if l.is_empty() { "ok -".to_string() } else { format!("ok {}", l.join(",")) }
+            }
+            "subs" if n == 2 => {
+                let e = self.h_elem(w[1])?;
+                let l: Vec<String> = e.sub_elements().map(|x| self.eid(&x)).collect();
+                if l.is_empty() { "ok -".to_string() } else { format!("ok {}", l.join(",")) }
+            }
             "target" if n == 2 => match self.h_elem(w[1])?.get_reference_target() {
                 Ok(t) => format!("ok {}", self.eid(&t)),
                 Err(e) => errs(&e),
@@ -812,6 +829,8 @@ struct ElemShape {
     texts: Vec<String>,
     attrs: Vec<String>,
     comment: Option<String>,
+    /// the child elements are in specification order (index paths in the element's type, all-version lookup, never decrease)
+    in_spec_order: bool,
 }
 
 #[derive(PartialEq, Clone, Copy)]
@@ -1345,7 +1364,11 @@ impl Checker {
     fn shape(&self, e: &Element) -> ElemShape {
         let mut kids: Vec<usize> = e.sub_elements().map(|s| self.id(&s)).collect();
         kids.sort();
+        let et = e.element_type();
+        let paths: Vec<Vec<usize>> = e.sub_elements().filter_map(|c| et.find_sub_element(c.element_name(), u32::MAX).map(|x| x.1)).collect();
+        let in_spec_order = paths.len() == e.sub_elements().count() && paths.windows(2).all(|w| w[0] <= w[1]);
         ElemShape {
+            in_spec_order,
             kids,
             texts: e.content().filter_map(|c| if let ElementContent::CharacterData(cd) = c { Some(fmt_val(&cd)) } else { None }).collect(),
             attrs: e.attributes().map(|a| format!("{}={}", id16(a.attrname), fmt_val(&a.content))).collect(),
@@ -1883,6 +1906,10 @@ impl Checker {
                 }
                 if now.attrs != sh.attrs || now.comment != sh.comment {
                     out.push(Failure::new("C14", "attrs", format!("`{req}`: attributes or comment of e{i} changed")));
+                    break;
+                }
+                if sh.in_spec_order && !now.in_spec_order {
+                    out.push(Failure::new("C14", "spec-order", format!("`{req}`: the sub-elements of e{i} were in specification order before the sort and are not afterwards (the model is no longer valid)")));
                     break;
                 }
             }
@@ -3052,7 +3079,34 @@ impl Gen {
     fn op_query(&mut self) {
         let x = self.pick_handle();
         let k = self.rng.below(self.ck.w.models.len().max(1));
-        match self.rng.below(9) {
+        if self.ck.on("C03") && self.rng.chance(1, 2) {
+            // C03: the iterators on a second handle as well (element-scoped with a depth limit, file-scoped)
+            let y = self.pick_handle();
+            let d = [0usize, 1, 2, 3, 4][self.rng.below(5)];
+            self.req(format!("dfs e{y} {d}"));
+            let nf = self.ck.w.files.len();
+            if nf > 0 {
+                let f = self.rng.below(nf);
+                let d2 = [0usize, 2, 3, 5][self.rng.below(4)];
+                self.req(format!("dfsf f{f} {d2}"));
+            }
+        }
+        match self.rng.below(12) {
+            9 => {
+                let d = [0usize, 0, 1, 2, 3, 5][self.rng.below(6)];
+                self.req(format!("dfs e{x} {d}"))
+            }
+            10 => {
+                let nf = self.ck.w.files.len();
+                if nf == 0 {
+                    self.req(format!("subs e{x}"))
+                } else {
+                    let d = [0usize, 0, 1, 2, 3, 4, 6][self.rng.below(7)];
+                    let f = self.rng.below(nf);
+                    self.req(format!("dfsf f{f} {d}"))
+                }
+            }
+            11 => self.req(format!("subs e{x}")),
             0 => self.req(format!("path e{x}")),
             1 => self.req(format!("parent e{x}")),
             2 => self.req(format!("pos e{x}")),
